@@ -55,3 +55,66 @@ def validate_programs(ctx, programs, tag, use_sugar=None, shards=None, maxsteps=
                 mism.append(m)
     ctx.count(evaluations=sum(len(p) for p in programs), validated=n)
     return mism, results
+
+
+def replay_vectors(ctx, vecs, sigs_fn, tag="replay", sugar_variants=(False,), stack_mb=64):
+    """spec -> impl: every TLC-printed program on the real interpreter, compared per form"""
+    nbad = 0
+    for sv in sugar_variants:
+        jobs = [S.program_job(i, v["forms"], use_sugar=sv) for i, v in enumerate(vecs)]
+        results = run_jobs(jobs, ctx.dir, tag="%s%s" % (tag, "-sugar" if sv else ""), timeout=2400, stack_mb=stack_mb)
+        for v, res in zip(vecs, results):
+            if res.get("skipped"):
+                ctx.cov["skipped_after_crashes"] = ctx.cov.get("skipped_after_crashes", 0) + 1
+                continue
+            ctx.count(evaluations=len(v["forms"]), validated=1)
+            text = " ".join(S.render(f, sv) for f in v["forms"])
+            if res.get("crashed"):
+                ctx.violation(sigs_fn(v["forms"], v.get("tag")) , "%s : the process died (%s)" % (text, res.get("status")),
+                              {"stage": "replay", "forms": v["forms"], "expected": v["results"], "sugar": sv})
+                nbad += 1
+                continue
+            d = S.compare_program(v["results"], res)
+            if d:
+                k, why, e, o = d
+                sigs = sigs_fn(v["forms"], v.get("tag"))
+                rs = res["results"][1:]
+                if k < len(rs) and rs[k].get("k") == "panic":
+                    sigs = sigs + [{"kind": "panic_site", "value": rs[k].get("site", "?")}]
+                ctx.violation(sigs, "%s : form %d (%s) %s: specification %s ticks %s; implementation %s" %
+                              (text, k, S.render(v["forms"][k], sv), why, json.dumps(e["r"]), json.dumps(e["out"]), json.dumps(o)[:600]),
+                              {"stage": "replay", "forms": v["forms"], "expected": v["results"], "sugar": sv})
+                nbad += 1
+    return nbad
+
+
+def report_mismatches(ctx, progs, mism, sigs_fn, results=None):
+    for m in mism:
+        forms = progs[m["program"]][: m["form"] + 1]
+        sigs = sigs_fn(forms, None)
+        obs = m.get("observed", {})
+        if isinstance(obs, dict) and str(obs.get("kind", "")).startswith("Panic@"):
+            sigs = sigs + [{"kind": "panic_site", "value": obs["kind"][6:]}]
+        ctx.violation(sigs, "%s : form %d %s: specification %s ticks %s; implementation %s ticks %s" %
+                      (" ".join(S.render(f) for f in forms), m["form"], m["why"], json.dumps(m["expected"]),
+                       json.dumps(m["expectedTicks"]), json.dumps(m["observed"]), json.dumps(m["observedTicks"])),
+                      {"stage": "validate", "forms": forms})
+
+
+def generic_replay(ctx, case, sigs_fn):
+    forms = case["forms"]
+    log("program:", " ".join(S.render(f, case.get("sugar", False)) for f in forms))
+    if case.get("expected"):
+        res = run_jobs([S.program_job(0, forms, use_sugar=case.get("sugar", False))], ctx.dir, tag="replay1")[0]
+        d = S.compare_program(case["expected"], res)
+        log("implementation:", json.dumps(res["results"][1:])[:2000])
+        log("specification:", json.dumps(case["expected"])[:2000])
+        if d or res.get("crashed"):
+            ctx.violation(sigs_fn(forms, None), "replayed: differs", case)
+    else:
+        mism, results = validate_programs(ctx, [forms], "replay1", shards=1)
+        log("implementation:", json.dumps(results[0]["results"][1:])[:2000])
+        for m in mism:
+            log("specification:", json.dumps(m["expected"]), json.dumps(m["expectedTicks"]))
+            ctx.violation(sigs_fn(forms, None), "replayed: differs at form %d (%s)" % (m["form"], m["why"]), case)
+    return 1 if ctx.nviol else 0
